@@ -14,7 +14,7 @@ use crate::authority::verify_position_bundle_authority;
 #[allow(unused_imports)]
 use crate::tick_math::*;
 use crate::swap_handlers::{Context, Account, Program, Token, UncheckedAccount, Clock, ClockData, now_unix, to_timestamp_u64, moved, transfer_from_vault_to_owner, Mint};
-use crate::swap_handlers::{Interface, TokenInterface, Memo, RemainingAccountsInfo, RemainingAccountsSlice, AccountsType, ParsedRemainingAccounts, parse_remaining_accounts, transfer_from_vault_to_owner_v2, memo_bytes};
+use crate::swap_handlers::{Interface, TokenInterface, Memo, RemainingAccountsInfo, RemainingAccountsSlice, AccountsType, ParsedRemainingAccounts, parse_remaining_accounts, parsed_remaining, transfer_from_vault_to_owner_v2, memo_bytes, moved_with, hook_tag};
 use crate::handlers_small::calculate_collect_reward_v2;
 use crate::authority::{is_locked_position, validate_owner};
 use crate::handlers_small::calculate_collect_reward;
@@ -341,6 +341,9 @@ pub mod transfer_memo {
         r is Ok ==> final(ctx.accounts).position.data == (Position { fee_owed_a: 0, fee_owed_b: 0, ..old(ctx.accounts).position.data }), //# C07 C01
         r is Ok ==> moved(*old(ctx.accounts).token_vault_a.info.key, *old(ctx.accounts).token_owner_account_a.info.key, old(ctx.accounts).position.data.fee_owed_a)
             && moved(*old(ctx.accounts).token_vault_b.info.key, *old(ctx.accounts).token_owner_account_b.info.key, old(ctx.accounts).position.data.fee_owed_b), //# C07 C01 C06
+        // each payout is made with the mint account, token program and transfer-hook accounts of ITS token
+        r is Ok ==> (parsed_remaining(ctx.remaining_accounts@, remaining_accounts_info) matches Ok(pr) && moved_with(*old(ctx.accounts).token_vault_a.info.key, *old(ctx.accounts).token_owner_account_a.info.key, *old(ctx.accounts).token_mint_a.info.key, old(ctx.accounts).token_program_a.k, hook_tag(pr.transfer_hook_a))
+            && moved_with(*old(ctx.accounts).token_vault_b.info.key, *old(ctx.accounts).token_owner_account_b.info.key, *old(ctx.accounts).token_mint_b.info.key, old(ctx.accounts).token_program_b.k, hook_tag(pr.transfer_hook_b))), //# C16 C15
 //@ end
 //@ struct instructions/v2/collect_protocol_fees.rs CollectProtocolFeesV2
 //@ constraints instructions/v2/collect_protocol_fees.rs CollectProtocolFeesV2
@@ -355,6 +358,8 @@ pub mod transfer_memo {
         r is Ok ==> final(ctx.accounts).whirlpool.data == (Whirlpool { protocol_fee_owed_a: 0, protocol_fee_owed_b: 0, ..old(ctx.accounts).whirlpool.data }),
         r is Ok ==> moved(*old(ctx.accounts).token_vault_a.info.key, *old(ctx.accounts).token_destination_a.info.key, old(ctx.accounts).whirlpool.data.protocol_fee_owed_a)
             && moved(*old(ctx.accounts).token_vault_b.info.key, *old(ctx.accounts).token_destination_b.info.key, old(ctx.accounts).whirlpool.data.protocol_fee_owed_b),
+        r is Ok ==> (parsed_remaining(ctx.remaining_accounts@, remaining_accounts_info) matches Ok(pr) && moved_with(*old(ctx.accounts).token_vault_a.info.key, *old(ctx.accounts).token_destination_a.info.key, *old(ctx.accounts).token_mint_a.info.key, old(ctx.accounts).token_program_a.k, hook_tag(pr.transfer_hook_a))
+            && moved_with(*old(ctx.accounts).token_vault_b.info.key, *old(ctx.accounts).token_destination_b.info.key, *old(ctx.accounts).token_mint_b.info.key, old(ctx.accounts).token_program_b.k, hook_tag(pr.transfer_hook_b))), //# C16 C15
 //@ end
 //@ struct instructions/v2/collect_reward.rs CollectRewardV2
 //@ constraints instructions/v2/collect_reward.rs CollectRewardV2
@@ -374,6 +379,7 @@ pub mod transfer_memo {
             && (forall|k: int| 0 <= k < 3 && k != reward_index ==> final(ctx.accounts).position.data.reward_infos[k] == old(ctx.accounts).position.data.reward_infos[k])
             && final(ctx.accounts).position.data.liquidity == old(ctx.accounts).position.data.liquidity
             && final(ctx.accounts).position.data.fee_owed_a == old(ctx.accounts).position.data.fee_owed_a && final(ctx.accounts).position.data.fee_owed_b == old(ctx.accounts).position.data.fee_owed_b }), //# C11
+        r is Ok ==> (parsed_remaining(ctx.remaining_accounts@, remaining_accounts_info) matches Ok(pr) && moved_with(*old(ctx.accounts).reward_vault.info.key, *old(ctx.accounts).reward_owner_account.info.key, *old(ctx.accounts).reward_mint.info.key, old(ctx.accounts).reward_token_program.k, hook_tag(pr.transfer_hook_reward))), //# C16 C15
 //@ end
 
 // ------------------------------------------------------------------ update_fees_and_rewards
